@@ -464,6 +464,14 @@ func (w *world) run() {
 				bm.orig = []int{-1, w.n, 255, 1<<31 - 1, 256 + i, 512 + i, -256 + i}[c.Choose(7, "badorig")]
 				bm.label = "transport:origin-out-of-range"
 				out.Faults["transport.origin_out_of_range"]++
+				if c.Bool(1, 2, "badorig.replaces") {
+					// the mislabelled copy is the ONLY copy this collector gets from that signer (no
+					// genuine message to collide with as a duplicate)
+					for k := len(pending) - 1; k >= 0 && pending[k].from == i && pending[k].to == col.id; k-- {
+						pending = pending[:k]
+					}
+					out.Faults["transport.origin_out_of_range_only_copy"]++
+				}
 				pending = append(pending, bm)
 			}
 		}
